@@ -7,6 +7,8 @@ ALT = "/tmp/alt"
 def sh(cmd, **kw):
     return subprocess.run(cmd, shell=True, stdout=subprocess.PIPE, stderr=subprocess.STDOUT, text=True, **kw)
 sh("git -C %s checkout -q -- ." % ALT)
+head = sh("git -C /repo rev-parse HEAD").stdout.strip()
+sh("git -C %s checkout -q --detach %s" % (ALT, head))
 r = sh("git -C %s apply %s/patch.diff" % (ALT, src))
 assert r.returncode == 0, r.stdout
 out = {"id": sid, "applied": True, "checks": {}}
